@@ -2,14 +2,16 @@
 (* The services, ports and channels of the whole-server check (shared by MC_Honeytrap, which draws the
    filter configurations, and Honeytrap_Trace, which validates what the real server did with them).
    http and telnet share a port (http has a payload detector, abstracted to the first word of the
-   client's first segment); ftp and redis have ports of their own.                                   *)
+   client's first segment); ftp and redis have ports of their own; echo is served for datagrams only (udp/7).                                   *)
 EXTENDS Integers, Sequences
 
 Chans == {"a", "b", "f", "all"}
 SvcTable == << [proto |-> "tcp", ip |-> "", port |-> 8080, svcs |-> << [name |-> "http", det |-> <<"GET">>], [name |-> "telnet", det |-> <<>>] >>],
                [proto |-> "tcp", ip |-> "", port |-> 21, svcs |-> << [name |-> "ftp", det |-> <<>>] >>],
                [proto |-> "tcp", ip |-> "", port |-> 6379, svcs |-> << [name |-> "redis", det |-> <<>>] >>],
-               [proto |-> "tcp", ip |-> "", port |-> 7777, svcs |-> << [name |-> "boom", det |-> <<>>] >>] >>      \* a stub whose handler panics on demand
-Cats == [s \in {"http", "telnet", "ftp", "redis", "boom"} |-> CASE s = "boom" -> <<"b","o","o","m">> [] s = "http" -> <<"h","t","t","p">> [] s = "telnet" -> <<"t","e","l","n","e","t">>
+               [proto |-> "tcp", ip |-> "", port |-> 7777, svcs |-> << [name |-> "boom", det |-> <<>>] >>],      \* a stub whose handler panics on demand
+               [proto |-> "udp", ip |-> "", port |-> 7, svcs |-> << [name |-> "echo", det |-> <<>>] >>] >>         \* datagrams: tcp/7 and udp/21 are NOT configured
+Cats == [s \in {"http", "telnet", "ftp", "redis", "boom", "echo"} |-> CASE s = "boom" -> <<"b","o","o","m">> [] s = "http" -> <<"h","t","t","p">> [] s = "telnet" -> <<"t","e","l","n","e","t">>
+                                                         [] s = "echo" -> <<"e","c","h","o">>
                                                          [] s = "ftp" -> <<"f","t","p">> [] s = "redis" -> <<"r","e","d","i","s">>]
 =============================================================================
